@@ -30,16 +30,21 @@ Definition gated (m : mstate) (e1 e2 : ev) : mstate * list mout :=
   let '(m3, o3) := m_step m2 (LEnq e2) in
   settle (settle_fuel m3) m3 (o1 ++ o2 ++ o3).
 
+(* after every step the harness reads the channel through GetByID (quiescence barrier), whose
+   nilEvent terminates the machine of a record that is final *)
+Definition hsync (m : mstate) : mstate :=
+  if is_final (c_status (m_chan m)) then mkM (m_chan m) [] (m_handler m) true else m.
+
 Fixpoint run_hist (m : mstate) (es : list hstep) (oks : list bool) (outs : list mout)
   : mstate * list bool * list mout :=
   match es with
   | [] => (m, oks, outs)
   | HEv e :: r =>
       if known_event (fst e) && negb (m_dead m) then
-        let '(m', o) := deliver m e in run_hist m' r (oks ++ [true]) (outs ++ o)
-      else run_hist m r (oks ++ [false]) outs
+        let '(m', o) := deliver m e in run_hist (hsync m') r (oks ++ [true]) (outs ++ o)
+      else run_hist (hsync m) r (oks ++ [false]) outs
   | HGated e1 e2 :: r =>
-      let '(m', o) := gated m e1 e2 in run_hist m' r (oks ++ [true; true]) (outs ++ o)
+      let '(m', o) := gated m e1 e2 in run_hist (hsync m') r (oks ++ [true; true]) (outs ++ o)
   end.
 
 Definition notifs_of (outs : list mout) : list (EventCode * view) :=
